@@ -301,3 +301,56 @@ def field_groups(f, items, classify):
         if any(x in r for x in rets):
             problems.append('%s: some feasible path appends none of the alternatives' % fd['kind'])
     return fields, problems
+
+
+def byte_layout(f, items, source=None):
+    """The wire bytes a serializer appends, one entry per byte, independent of how they are spelled (push of a
+    shifted/masked value, extend_from_slice(&x.to_be_bytes()), an array literal, a byte-string constant ...):
+      ('field', name, k)  byte k (0 = least significant) of the input `name`
+      ('const', v)        a constant byte
+      ('?', text)         something else
+    An item whose length is not known statically yields one ('blob', item) entry.  `source(expr)` names the inputs
+    (default: fields of *self = parameter 1, width from the ADT table)."""
+    from .bits import BitEval, describe
+
+    def default_source(e):
+        if isinstance(e, tuple) and e[0] == 'entry':
+            lv = e[1]
+            p = Fn.path_of(lv)
+            if Fn.root_of(lv) == ('deref', ('param', 1)) and len(p) == 1 and p[0][0] == 'f':
+                ty = lv_type(f, lv)
+                w = {'u8': 8, 'u16': 16, 'u32': 32, 'u64': 64, 'u128': 128, 'bool': 1}.get(ty)
+                if w:
+                    return (p[0][1], w)
+        return None
+    be = BitEval(source or default_source)
+
+    def classify(bits):
+        if bits is None:
+            return ('?', 'unknown')
+        bits = (list(bits) + [0] * 8)[:8]
+        if all(b in (0, 1) for b in bits):
+            return ('const', sum(b << i for i, b in enumerate(bits)))
+        if all(isinstance(b, tuple) for b in bits):
+            k0 = bits[0]
+            if k0[2] % 8 == 0 and all(b[1] == k0[1] and b[2] == k0[2] + i for i, b in enumerate(bits)):
+                return ('field', k0[1], k0[2] // 8)
+        return ('?', describe(bits))
+    out = []
+    for it in items:
+        v = it['value']
+        if it['op'] == 'push':
+            out.append((classify(be.bits(v)), it))
+            continue
+        by = be.bytes_of(v)
+        if by is None:
+            pv = peel(v, unwraps=False)
+            while is_call(pv, r'to_vec$|as_slice$|Deref::deref$'):
+                pv = peel(pv[2][0], unwraps=False)
+            by = be.bytes_of(pv)
+        if by is None:
+            out.append((('blob', short(v)[:60]), it))
+        else:
+            for b in by:
+                out.append((classify(b), it))
+    return out
